@@ -788,6 +788,25 @@ pub fn base_programs(tier: Tier) -> Vec<(String, Program)> {
     );
     p.defs = defs;
     out.push(("X/enum-struct-match".to_string(), p));
+    // a program with one binding construct of every kind, all names distinct (scope model)
+    let u8t = Ty::u8();
+    let mut p = Program::simple_main(
+        vec![("a", u8t.clone()), ("b", Ty::Bool), ("ar", Ty::Arr(Box::new(u8t.clone()), 2)), ("pr", Ty::Arr(Box::new(Ty::Tup(vec![u8t.clone(), u8t.clone()])), 2))],
+        u8t.clone(),
+        vec![
+            let_mut("acc", var("a")),
+            expr_stmt(if_(var("b"), vec![let_("t1", var("a")), assign("acc", vec![], var("t1"))], Some(vec![let_("e1", var("a")), assign("acc", vec![], bin(BinOp::BitXor, var("e1"), lit_u8(1)))]))),
+            expr_stmt(block(vec![let_("blk", var("acc")), assign("acc", vec![], var("blk"))])),
+            for_(pvar("fv"), var("ar"), vec![let_("fl", var("fv")), assign("acc", vec![], bin(BinOp::BitXor, var("acc"), var("fl")))]),
+            for_(Pat::Tup(vec![pvar("k1"), pvar("v1")]), var("pr"), vec![assign("acc", vec![], bin(BinOp::BitXor, var("acc"), bin(BinOp::BitAnd, var("k1"), var("v1"))))]),
+            st(StmtKind::ForJoin(Pat::Tup(vec![Pat::Tup(vec![pvar("jk"), pvar("jv")]), Pat::Tup(vec![pvar("jk2"), pvar("jw")])]), var("pr"), var("pr"), vec![assign("acc", vec![], bin(BinOp::BitXor, var("acc"), bin(BinOp::BitXor, bin(BinOp::BitXor, var("jk"), var("jk2")), bin(BinOp::BitXor, var("jv"), var("jw")))))])),
+            let_("m", match_(tup(vec![var("a"), var("b")]), vec![(Pat::Tup(vec![pvar("pa"), Pat::Bool(true)]), var("pa")), (Pat::Tup(vec![pvar("pb"), Pat::Bool(false)]), bin(BinOp::BitXor, var("pb"), lit_u8(1)))])),
+            let_("late", call("helper", vec![var("m")])),
+            expr_stmt(bin(BinOp::BitXor, var("acc"), var("late"))),
+        ],
+    );
+    p.fns.push(FnDef { is_pub: false, name: "helper".into(), params: vec![Param { mutable: false, name: "hp".into(), ty: u8t.clone() }], ret: u8t, body: vec![let_("hl", bin(BinOp::BitXor, var("hp"), lit_u8(1))), expr_stmt(var("hl"))] });
+    out.push(("X/all-binding-constructs".to_string(), p));
     out
 }
 
@@ -872,6 +891,26 @@ pub fn run(tier: Tier) -> i32 {
                 }
             }
         }
+        // the scope model: every identifier use rewritten to every name bound elsewhere but not in scope
+        for (mp, desc) in super::c17_scope::scope_mutants(base) {
+            let src = render(&mp);
+            let e = local.entry("ScopeModel".to_string()).or_insert((0, 0, 0));
+            e.0 += 1;
+            let site = format!("N/ScopeModel/{}", desc.split('`').next().unwrap_or("").trim());
+            let case = json!({"kind": "mutant", "base": bsite, "edit": desc, "source": src});
+            match catch(|| garble_lang::check(&src)) {
+                Err(p) => coll.push(Violation::new("C17", site, "checker-rust-panic", bsite.clone(), case, p)),
+                Ok(Ok(_)) => coll.push(Violation::new("C17", site, "ill-typed-accepted", bsite.clone(), case, desc)),
+                Ok(Err(garble_lang::Error::CompileTimeError(garble_lang::CompileTimeError::TypeError(errs)))) if !errs.is_empty() => e.1 += 1,
+                Ok(Err(other)) => {
+                    e.2 += 1;
+                    let mut s = samples.lock().unwrap();
+                    if s.len() < 5 {
+                        s.push(json!({"not_parsable": format!("{other:?}"), "source": src}));
+                    }
+                }
+            }
+        }
         let mut g = per_rule.lock().unwrap();
         for (k, v) in local {
             let e = g.entry(k).or_insert((0, 0, 0));
@@ -902,7 +941,7 @@ pub fn run(tier: Tier) -> i32 {
         coverage: json!({
             "evaluations": mutants,
             "distinct_nontrivial": rejected,
-            "rule": "base set = accepted, fully annotated programs of families S (n<=1), D (n<=1), P (n=1) and an enum/struct match program (thorough: n<=2); for each of 30 rule-breaking edit kinds (operand of a fresh nominal type, literal of another width, argument replaced/dropped/added, return type, tail expression, branch/arm types, non-Boolean condition, undefined identifier, use after scope, unknown field/struct/variant, dropped mut, struct literal field dropped/added/duplicated, pattern arity, refutable let/for/for-join pattern, self/mutual recursion, unused fn, pub fn without parameters, non-usize index, wrongly typed assignment) EVERY applicable site of every base program is mutated; thorough adds two-edit combinations; distinct_nontrivial = mutants rejected with a non-empty type error list",
+            "rule": "base set = accepted, fully annotated programs of families S (n<=1), D (n<=1), P (n=1) and an enum/struct match program (thorough: n<=2); for each of 30 rule-breaking edit kinds (operand of a fresh nominal type, literal of another width, argument replaced/dropped/added, return type, tail expression, branch/arm types, non-Boolean condition, undefined identifier, use after scope, unknown field/struct/variant, dropped mut, struct literal field dropped/added/duplicated, pattern arity, refutable let/for/for-join pattern, self/mutual recursion, unused fn, pub fn without parameters, non-usize index, wrongly typed assignment) EVERY applicable site of every base program is mutated; ScopeModel: a reference model of lexical scoping computes the names in scope at every identifier use and assignment target, and each is rewritten to every name bound elsewhere in the program (other arm, other branch, inner block, loop pattern, later let, other function) but not in scope there; thorough adds two-edit combinations; distinct_nontrivial = mutants rejected with a non-empty type error list",
             "samples": smp,
             "base_programs": bases.len(),
             "base_programs_accepted": base_ok,
